@@ -2,10 +2,11 @@
    oracles of this property rest on, regenerated from /repo on every run, equal the reviewed ones:
      - group wiring (which output feeds which input, as OpenMDAO resolves it) of the canonical models of: AeroPoint, AerostructPoint, SpatialBeamAlone
      - unit contract (declared units of every input / output) of the classes in: -
-   An edit that re-wires a group or drops / changes a unit in these areas breaks the obligation; the oracles of the property
-   then look for the failing input. *)
+     - option defaults of the classes in: integration, structures
+   An edit that re-wires a group, drops / changes a unit or changes a default in these areas breaks the obligation; the oracles of
+   the property then look for the failing input. *)
 From Coq Require Import String List Bool.
-From OAS Require Import Wiring WiringReviewed IOUnits IOUnitsReviewed Tie_wiring_AeroPoint Tie_wiring_AerostructPoint Tie_wiring_SpatialBeamAlone.
+From OAS Require Import Wiring WiringReviewed IOUnits IOUnitsReviewed OptionDefaults OptionDefaultsReviewed Tie_wiring_AeroPoint Tie_wiring_AerostructPoint Tie_wiring_SpatialBeamAlone Tie_options_integration Tie_options_structures.
 Import ListNotations.
 
 Theorem C02_wiring_of_AeroPoint_models_is_the_reviewed_one :
@@ -22,3 +23,13 @@ Theorem C02_wiring_of_SpatialBeamAlone_models_is_the_reviewed_one :
   wiring_family_SpatialBeamAlone gen_wiring = wiring_family_SpatialBeamAlone reviewed_wiring /\ wiring_family_SpatialBeamAlone reviewed_wiring <> [].
 Proof. split; [exact wiring_SpatialBeamAlone_reviewed | exact wiring_SpatialBeamAlone_nonempty]. Qed.
 Print Assumptions C02_wiring_of_SpatialBeamAlone_models_is_the_reviewed_one.
+
+Theorem C02_option_defaults_of_integration_are_the_reviewed_ones :
+  options_dir_integration gen_option_defaults = options_dir_integration reviewed_option_defaults /\ options_dir_integration reviewed_option_defaults <> [].
+Proof. split; [exact options_integration_reviewed | exact options_integration_nonempty]. Qed.
+Print Assumptions C02_option_defaults_of_integration_are_the_reviewed_ones.
+
+Theorem C02_option_defaults_of_structures_are_the_reviewed_ones :
+  options_dir_structures gen_option_defaults = options_dir_structures reviewed_option_defaults /\ options_dir_structures reviewed_option_defaults <> [].
+Proof. split; [exact options_structures_reviewed | exact options_structures_nonempty]. Qed.
+Print Assumptions C02_option_defaults_of_structures_are_the_reviewed_ones.
